@@ -50,6 +50,109 @@ class Module:
         self.assign_nodes = []  # ordered (name, value_node, stmt)
 
 
+# ---------------------------------------------------------------------------- match statements
+class _Unsupported(Exception):
+    pass
+
+
+def _pattern(p, subj):
+    """(test expression or None when irrefutable, [binding statements]) of a match pattern against the expression subj."""
+    def here(n):
+        return ast.copy_location(n, p)
+    if isinstance(p, ast.MatchValue):
+        return here(ast.Compare(left=subj, ops=[ast.Eq()], comparators=[p.value])), []
+    if isinstance(p, ast.MatchSingleton):
+        return here(ast.Compare(left=subj, ops=[ast.Is()], comparators=[ast.Constant(p.value)])), []
+    if isinstance(p, ast.MatchOr):
+        tests = []
+        for q in p.patterns:
+            t, b = _pattern(q, subj)
+            if b:
+                raise _Unsupported("bindings inside an or-pattern")
+            if t is None:
+                return None, []
+            tests.append(t)
+        return here(ast.BoolOp(op=ast.Or(), values=tests)), []
+    if isinstance(p, ast.MatchAs):
+        t, b = (None, []) if p.pattern is None else _pattern(p.pattern, subj)
+        if p.name is not None:
+            b = b + [here(ast.Assign(targets=[ast.Name(id=p.name, ctx=ast.Store())], value=subj))]
+        return t, b
+    if isinstance(p, ast.MatchSequence) and not any(isinstance(q, ast.MatchStar) for q in p.patterns):
+        tests = [here(ast.Call(func=ast.Name(id="isinstance", ctx=ast.Load()), args=[subj, ast.Tuple(elts=[ast.Name(id="list", ctx=ast.Load()), ast.Name(id="tuple", ctx=ast.Load())], ctx=ast.Load())], keywords=[])),
+                 here(ast.Compare(left=ast.Call(func=ast.Name(id="len", ctx=ast.Load()), args=[subj], keywords=[]), ops=[ast.Eq()], comparators=[ast.Constant(len(p.patterns))]))]
+        binds = []
+        for i, q in enumerate(p.patterns):
+            t, b = _pattern(q, here(ast.Subscript(value=subj, slice=ast.Constant(i), ctx=ast.Load())))
+            if t is not None:
+                tests.append(t)
+            binds += b
+        return here(ast.BoolOp(op=ast.And(), values=tests)), binds
+    if isinstance(p, ast.MatchClass) and not p.patterns:
+        tests = [here(ast.Call(func=ast.Name(id="isinstance", ctx=ast.Load()), args=[subj, p.cls], keywords=[]))]
+        binds = []
+        for k, q in zip(p.kwd_attrs, p.kwd_patterns):
+            t, b = _pattern(q, here(ast.Attribute(value=subj, attr=k, ctx=ast.Load())))
+            if t is not None:
+                tests.append(t)
+            binds += b
+        return (tests[0] if len(tests) == 1 else here(ast.BoolOp(op=ast.And(), values=tests))), binds
+    raise _Unsupported(type(p).__name__)
+
+
+class _MatchLowering(ast.NodeTransformer):
+    """`match` written as the if / elif chain it abbreviates (literal, singleton, or-, capture, wildcard, fixed-length sequence
+    and keyword class patterns, with guards). A match statement with any other pattern is left alone: the evaluator then
+    reports it as not modelled (fail closed)."""
+    n = 0
+
+    def visit_Match(self, node):
+        self.generic_visit(node)
+        import copy
+        pre = []
+        if isinstance(node.subject, (ast.Name, ast.Constant)):
+            subj = node.subject
+        else:
+            _MatchLowering.n += 1
+            tmp = "__match_subject_%d" % _MatchLowering.n
+            pre = [ast.copy_location(ast.Assign(targets=[ast.Name(id=tmp, ctx=ast.Store())], value=node.subject), node)]
+            subj = ast.Name(id=tmp, ctx=ast.Load())
+        try:
+            cases = [(c,) + _pattern(c.pattern, subj) for c in node.cases]
+        except _Unsupported:
+            return node
+
+        def build(i):
+            if i == len(cases):
+                return []
+            c, test, binds = cases[i]
+            loc = c.pattern
+            if not binds:
+                conds = [x for x in (test, c.guard) if x is not None]
+                if not conds:
+                    return list(c.body)
+                cond = conds[0] if len(conds) == 1 else ast.copy_location(ast.BoolOp(op=ast.And(), values=conds), loc)
+                return [ast.copy_location(ast.If(test=cond, body=list(c.body), orelse=build(i + 1)), loc)]
+            if c.guard is None:
+                if test is None:
+                    return binds + list(c.body)
+                return [ast.copy_location(ast.If(test=test, body=binds + list(c.body), orelse=build(i + 1)), loc)]
+            inner = binds + [ast.copy_location(ast.If(test=c.guard, body=list(c.body), orelse=build(i + 1)), loc)]
+            if test is None:
+                return inner
+            return [ast.copy_location(ast.If(test=test, body=inner, orelse=copy.deepcopy(build(i + 1))), loc)]
+        out = pre + build(0)
+        return out or [ast.copy_location(ast.Pass(), node)]
+
+
+def lower_match(tree):
+    if not any(isinstance(n, getattr(ast, "Match", ())) for n in ast.walk(tree)):
+        return tree
+    tree = _MatchLowering().visit(tree)
+    ast.fix_missing_locations(tree)
+    return tree
+
+
 class Program:
     def __init__(self, repo="/repo", pkgdir="src/bits", pkgname="bits"):
         self.repo = os.path.abspath(repo)
@@ -82,6 +185,7 @@ class Program:
                     tree = ast.parse(src, filename=path)
                 except SyntaxError as e:
                     raise AnalysisError("cannot parse %s: %s" % (path, e))
+                tree = lower_match(tree)
                 m = Module(name, path, os.path.relpath(path, self.repo), tree, is_pkg)
                 self.modules[name] = m
                 self.files.append(m.relpath)
